@@ -30,6 +30,7 @@ def run(prog, report, tier):
     quadtree.check_quad_closure(prog, report)
     quadtree.check_bdr_search(prog, report)
     quadtree.check_quad_init(prog, report)
+    quadtree.check_tolerances(prog, report)
     report.floor('R-scalar', 8)
     report.floor('R-register', 4)
     report.not_decided += [
